@@ -733,6 +733,15 @@ func (f *STFS) Rename(oldname, newname string) error {
 	oldname = cleanName(oldname)
 	newname = cleanName(newname)
 
+	// Renaming an entry to itself is a no-op, moving it into its own subtree is impossible
+	if oldname == newname {
+		return nil
+	}
+
+	if strings.HasPrefix(newname, strings.TrimSuffix(oldname, "/")+"/") {
+		return os.ErrInvalid
+	}
+
 	f.ioLock.Lock()
 	defer f.ioLock.Unlock()
 
@@ -800,11 +809,10 @@ func (f *STFS) Rename(oldname, newname string) error {
 			return os.ErrExist
 		}
 
+		// Replace the existing entry
 		if err := f.removeWithoutLocking(newname); err != nil {
 			return err
 		}
-
-		return err
 	}
 
 	return f.writeOps.Move(oldname, newname)
